@@ -6,16 +6,35 @@ rc_bin("c13_rc", ["harness/c13_log_content.cc"], lib=True)
 rc_bin("c13_gxx", ["harness/c13_log_content.cc"], lib=True, cxx="g++")
 rc_bin("c13_tsan", ["harness/c13_log_content.cc"], lib=True, san="tsan")
 PROPS["C13"] = dict(
-    level_text="Model-based property tests: generated emit programs (17 precompiled argument orders of the variadic EmitLogRecord "
-               "and the severity helpers, CreateLogRecord + setters in generated order, every body/attribute value alternative, "
-               "nested active spans, explicit trace identity, enabled/disabled loggers, null records, 1..3 simple/batch processors) "
-               "are compared inside each exporter's Export with a reference record model; caller storage is scribbled and freed "
-               "as soon as Emit returns so ASan and the content comparison expose retained pointers.",
+    level_text="Model-based property tests: generated emit programs (57 precompiled call forms: argument orders of the variadic "
+               "EmitLogRecord and the severity helper templates incl. overlapping arguments; body passed as AttributeValue / "
+               "string_view / const char* / literal / std::string / bare scalar; timestamp as SystemTimestamp / time_point; "
+               "attributes as KeyValueIterable / MakeAttributes(span | initializer_list | container) / std::map<string,AttributeValue> / "
+               "map<string,int> / vector<pair> / string-owning containers; EventId with and without a name; whole and partial "
+               "explicit trace identity; the NON-template virtual Log(...) overloads and the 24 Trace..Fatal wrappers built on them; "
+               "CreateLogRecord + setters in generated order + EmitLogRecord(record) or EmitLogRecord(record, args...); "
+               "every body/attribute value alternative; nested context frames: DefaultSpan with a valid or an invalid context, "
+               "a SpanContext stored under the span key, a null pointer / non-span value under the span key, an unrelated key on "
+               "top, real SDK spans (recording, ended, dropped by the sampler); enabled/disabled loggers, null records, 1..3 "
+               "simple/batch processors) are compared inside each exporter's Export with a reference record model; caller storage "
+               "is scribbled and freed as soon as Emit returns so ASan and the content comparison expose retained pointers.",
     technique="model-based PBT (reference log-record model) over generated emit programs with short-lived caller storage; rapidcheck; real threads for the per-thread active span clause",
     rule="A case = provider configuration + emit program(s).",
     assumptions=[
-        "timestamps/severity that are not supplied are not compared",
+        "a timestamp / body / event that is not supplied is not compared; a severity that is not supplied is expected to stay "
+        "Severity::kInvalid (the API's 'unspecified' value)",
         "EventId names are C strings by API design (no embedded NUL generated)",
+        "a SpanContext stored under the span key of the current context counts as the active span (logger.cc handles that "
+        "alternative explicitly); a null pointer or a non-span value under the span key counts as 'no active span' (all-zero ids)",
+        "an ACTIVE span whose context is invalid but not all-zero is two-sided: the record may carry that context verbatim or "
+        "all-zero ids; explicitly supplied identity fields win in both readings",
+        "identity supplied only in part (TraceId / SpanId / TraceFlags alone): the supplied field wins, the other fields stay what "
+        "CreateLogRecord copied from the active span (or zero)",
+        "an int64_t first argument followed by a string LITERAL (logger->Info(7, \"fmt\", attrs)) resolves to the variadic "
+        "template, where an int64 is a body that the literal then overwrites; such calls are not generated as 'event id' forms - "
+        "the non-template overloads are reached with arguments of exactly the parameter types",
+        "the values seen by the exporter are copied out of the record's AttributeValue views by the harness' own visitor "
+        "(a const char* alternative is read up to its NUL inside Export)",
         "the multi-thread target owns no schedule: it adds evidence only",
         SC_NOTE,
     ],
@@ -23,6 +42,9 @@ PROPS["C13"] = dict(
         run("program", "c13_rc", "log_program", "rc", dict(procs=8, cases=9000), dict(procs=16, cases=80000)),
         # f5_witness is only ever replayed (known/C13/F5.json); it has no search budget
         run("f5-witness", "c13_rc", "f5_witness", "rc", None, None),
+        # fixed witness of finding C13-eventid-noname (fixed; regression replay replays/C13/C13-eventid-noname.json);
+        # replay only, no search budget
+        run("eventid-noname-witness", "c13_rc", "eventid_noname_witness", "rc", None, None),
         run("threads", "c13_rc", "log_threads", "rc", dict(procs=3, cases=600), dict(procs=6, cases=6000), deterministic=False),
         # the same sequential programs under the TSan build: no quarantine, so freed spans/records are reused at once
         run("program-g++", "c13_gxx", "log_program", "rc", dict(procs=2, cases=2500), dict(procs=4, cases=30000), replay_bin="c13_gxx"),
